@@ -1,6 +1,6 @@
 
 use vp::engine::{run_property, RunArgs, Tier};
-use vp::{gag, props, sut};
+use vp::{gag, sut};
 
 fn usage() -> ! {
     eprintln!("usage: vp <Cxx> [--tier quick|thorough] [--replay FILE] [--shrink-case FILE] [--emit-corpus DIR N] [--seed N] [--workers N] [--cases N]");
